@@ -1,0 +1,26 @@
+//go:build verif
+
+package lastgersync
+
+import (
+	"math/big"
+	"time"
+
+	"github.com/agglayer/aggkit/sync"
+	aggkittypes "github.com/agglayer/aggkit/types"
+	"github.com/ethereum/go-ethereum/common"
+)
+
+// NewVerifC16DownloaderFEP builds the real FEP downloader (same call as in New) for the verification harness of
+// property C16 (/verif/harness/c16).
+func NewVerifC16DownloaderFEP(
+	l2Client aggkittypes.BaseEthereumClienter,
+	l2GERAddr common.Address,
+	l1InfoTreeSync L1InfoTreeQuerier,
+	p *VerifC16Processor,
+	rh *sync.RetryHandler,
+	blockFinality *big.Int,
+	waitForNewBlocksPeriod time.Duration,
+) (sync.Downloader, error) {
+	return newDownloaderFEP(l2Client, l2GERAddr, l1InfoTreeSync, p, rh, blockFinality, waitForNewBlocksPeriod)
+}
